@@ -197,7 +197,7 @@ def _nets(chunk):
         _, idx, count = chunk
         r = M.rng('C15', 'random', idx)
         for _ in range(count):
-            net = G.random_net(r, n_inputs=r.randint(0, 3), k_gates=r.randint(1, 7), max_nary=4)
+            net = G.random_net(r, n_inputs=r.randint(0, 3), k_gates=r.randint(1, 7), max_nary=4, large_every=60)
             if N.arity(net):
                 continue
             yield net
